@@ -1,0 +1,29 @@
+// +build verif
+
+package node
+
+import (
+	"github.com/youzan/ZanRedisDB/common"
+	"github.com/youzan/ZanRedisDB/raft/raftpb"
+)
+
+// Verification hooks (compiled only with -tags verif), add-only: the
+// production snapshot fetch path of a lagging replica.
+
+// VerifPrepareSnapshotForStore runs prepareSnapshotForStore: check for a usable
+// local backup, ask the other replicas (http /cluster/checkbackup), clean up /
+// reuse old checkpoint directories (handleReuseOldCheckpoint), fetch the
+// checkpoint directory (common.RunFileSync) and write source_node_info.
+func VerifPrepareSnapshotForStore(store *KVStore, machineConfig MachineConfig,
+	clusterInfo common.IClusterInfo, fullNS string, localID uint64, stopChan chan struct{},
+	raftSnapshot raftpb.Snapshot, retry int) error {
+	return prepareSnapshotForStore(store, machineConfig, clusterInfo, fullNS, localID, stopChan, raftSnapshot, retry)
+}
+
+// VerifHandleReuseOldCheckpoint runs handleReuseOldCheckpoint.
+func VerifHandleReuseOldCheckpoint(srcInfo string, localPath string, term uint64, index uint64, skipReuseN int) (string, string) {
+	return handleReuseOldCheckpoint(srcInfo, localPath, term, index, skipReuseN)
+}
+
+// VerifPostFileSync writes the source_node_info file like postFileSync.
+func VerifPostFileSync(newPath string, srcInfo string) { postFileSync(newPath, srcInfo) }
